@@ -29,7 +29,7 @@ func init() {
 
 func c01Gen(g *Gen) []Case {
 	if g.Quick {
-		return yearCases("year", sampleYears(g.Rng, 150, true))
+		return append(yearCases("year", sampleYears(g.Rng, 150, true)), yearCases("seam", allYears())...)
 	}
 	return yearCases("year", allYears())
 }
@@ -50,7 +50,9 @@ func isBoundaryYear(y int) bool {
 func c01Run(w *W, c Case) {
 	y := c.A[0]
 	w.Class(fmt.Sprintf("century%02d", y/100))
-	historyTouch(w, y)
+	if c.K != "seam" {
+		historyTouch(w, y)
+	}
 	by := isBoundaryYear(y)
 	digestEvery := 5
 	if !w.Quick && !by {
@@ -58,8 +60,20 @@ func c01Run(w *W, c Case) {
 	}
 	j0 := ref.JDN(y, 1, 1)
 	j1 := ref.JDN(y, 12, 31)
+	if c.K == "seam" {
+		// every year's turn: 20 December to 25 February, where the two directions of the conversion read the tables
+		// of two different years (round trips, successor and stepping only; the accessor digests are left to the
+		// sampled whole years)
+		by, digestEvery = false, 1<<30
+		j0 = ref.JDN(y, 12, 20)
+		j1 = j0 + 67
+		if j1 > ref.MaxJDN {
+			j1 = ref.MaxJDN
+		}
+		w.Class("year-turns")
+	}
 	var prev *calendar.Lunar
-	if y > minYear {
+	if y > minYear || c.K == "seam" {
 		py, pm, pd := ref.FromJDN(j0 - 1)
 		prev = calendar.NewSolarFromYmd(py, pm, pd).GetLunar()
 	}
@@ -91,7 +105,7 @@ func c01Run(w *W, c Case) {
 		// round trip lunar -> civil -> lunar through the constructor. Now and then (always in months 11, 12 and leap
 		// months) right after an unrelated conversion that leaves the table of the civil year with the lunar year's number
 		// cached, having matched one of its leading months, which belong to the lunar year before
-		if k.m >= 11 || k.m < 0 || j%5 == 0 {
+		if (c.K != "seam" && (k.m >= 11 || k.m < 0 || j%5 == 0)) || (c.K == "seam" && j%7 == 0) {
 			if k.y >= minYear && k.y <= maxYear {
 				calendar.NewSolarFromYmd(k.y, 1, 3+j%20).GetLunar()
 			}
@@ -146,7 +160,7 @@ func c01Run(w *W, c Case) {
 		if k.m < 0 {
 			leapSeen = true
 		}
-		if l2 != nil && (j%digestEvery == 0 || (special && (by || j%3 == 0))) {
+		if l2 != nil && c.K != "seam" && (j%digestEvery == 0 || (special && (by || j%3 == 0))) {
 			da, db := digest1(l), digest1(l2)
 			if da != db {
 				w.Violatef("path-digest", key, "accessors differ between Solar(%s).GetLunar() and NewLunar(%d,%d,%d,..): %s", key, k.y, k.m, k.d, diffDigests(da, db))
